@@ -381,3 +381,48 @@ def r13_3(ctx, rr):
         rr.check(ah == sh, "ConcurrentBuilder::set~push_unchecked:high", "the concurrent and the sequential builder set different high-bit positions: %s vs %s" % (tshow(ah), tshow(sh)), b.span)
     else:
         raise AnchorMissing("could not locate the low/high writes of the two Elias-Fano builders")
+
+
+@rule("R13.4", props=["C13", "C05"], floor=8, title="a caller-chosen memory ordering is not used both for a load (or a failed compare-exchange) and for a store/read-modify-write: no legal ordering of a setter panics")
+def r13_4(ctx, rr):
+    """`load` and the failure ordering of `compare_exchange` reject Release/AcqRel, `store` rejects
+    Acquire/AcqRel. A function that hands one ordering parameter to both kinds panics for an ordering
+    that is legal for what the function does as a whole (set_atomic(.., Release))."""
+    F = ctx.F()
+    fns = [b for b in F.fns() if not is_derived(b) and b.file.endswith(("bits/bit_vec.rs", "bits/bit_field_vec.rs", "traits/bit_field_slice.rs"))]
+    for b in fns:
+        ords = [p for p in b.params if p.get("k") == "PBind" and F.types[p["t"]].endswith("atomic::Ordering")]
+        if not ords:
+            continue
+        for p in ords:
+            pid = p["id"]
+
+            def is_p(n):
+                return n.get("k") == "Path" and n.get("res") == "local" and n.get("id") == pid
+            loadlike, storelike = [], []
+            for n in walk(b.body):
+                if n.get("k") != "MethodCall":
+                    continue
+                c = F.callee(n) or ""
+                if "atomic" not in c and "Atomic" not in c:
+                    continue
+                nm = n["name"]
+                a = n["args"]
+                if nm == "load" and a and is_p(a[-1]):
+                    loadlike.append(n)
+                elif nm in ("compare_exchange", "compare_exchange_weak") and len(a) == 4:
+                    if is_p(a[3]):
+                        loadlike.append(n)
+                    if is_p(a[2]):
+                        storelike.append(n)
+                elif nm in ("store", "swap") or nm.startswith("fetch_"):
+                    if a and is_p(a[-1]):
+                        storelike.append(n)
+            if not loadlike and not storelike:
+                continue
+            rr.instances += 1
+            ok = not (loadlike and storelike)
+            key = "%s:ordering-parameter-both-ways" % short_fn(b.key)
+            rr.ob(ok, key=key, sample={"fn": b.key, "loads_with_param": len(loadlike), "stores_with_param": len(storelike)})
+            if not ok:
+                rr.violate(key, "%s passes its ordering parameter `%s` both to `%s` (a load / failed compare-exchange: Release and AcqRel panic there) and to `%s` (a store or read-modify-write): the call panics for an ordering that is legal for the operation as a whole" % (b.key, p["name"], show(F, loadlike[0])[:60], show(F, storelike[0])[:60]), F.loc(loadlike[0]))
